@@ -39,6 +39,13 @@ fn scenarios(tier: Tier) -> Vec<Scenario> {
 		v.push(Scenario { name: "compact-then-block", universe: "long", prelude: vec!["*main"], op: vec!["compact", "B(x91)"] });
 		v.push(Scenario { name: "first-start", universe: "forks", prelude: vec![], op: vec!["init"] });
 		v.push(Scenario { name: "reorg-after-compact", universe: "long", prelude: vec!["*main", "compact"], op: vec!["B(y90)", "B(y91)", "B(y92)"] });
+		// a plain restart of a consistent node (whatever Chain::init writes must be crash-safe too)
+		v.push(Scenario { name: "restart", universe: "forks", prelude: vec!["B(m1)", "B(m2)", "B(m3)", "B(m4)", "B(m5)", "B(m6)", "B(f5)", "B(f6)"], op: vec!["init"] });
+		v.push(Scenario { name: "restart-compacted", universe: "long", prelude: vec!["*main", "compact"], op: vec!["init"] });
+		// a child arrives before its parent: the parent's acceptance cascades into the orphan
+		v.push(Scenario { name: "orphan-cascade", universe: "forks", prelude: vec!["B(m1)", "B(m2)", "B(m3)", "B(m4)"], op: vec!["B(m6)", "B(m5)"] });
+		// headers of the heavier fork are known first, its bodies arrive afterwards
+		v.push(Scenario { name: "body-sync-reorg", universe: "forks", prelude: vec!["B(m1)", "B(m2)", "B(m3)", "B(m4)", "B(m5)", "HS(..f7)"], op: vec!["B(f5)", "B(f6)"] });
 	}
 	v
 }
@@ -312,6 +319,50 @@ fn line_json(out: &str, tag: &str) -> Option<Value> {
 	out.lines().find_map(|l| l.strip_prefix(tag).and_then(|j| serde_json::from_str(j.trim()).ok()))
 }
 
+/// Judges what the reopening process reported: (class, violation text if any).  One verdict per
+/// case: the most severe failed clause (init > panic > head > validate > utxo > redelivery).
+fn classify(jv: Option<&Value>, twin: &Value, twin_fp: &str, allowed: &[String], op: &[&str], exit: (Option<i32>, Option<i32>)) -> (&'static str, Option<String>) {
+	let jv = match jv {
+		Some(v) => v,
+		// the judge itself died: the reopened chain aborts or hangs the process
+		None => return ("reopen-kills-process", Some(format!("reopening killed the judging process (code {:?} signal {:?})", exit.0, exit.1))),
+	};
+	let init = jv["init"].as_str().unwrap_or("");
+	if init != "Ok" {
+		return ("init-failed", Some(format!("Chain::init = {}", init)));
+	}
+	let head = jv["head"].as_str().unwrap_or("").to_string();
+	if jv.get("panic").is_some() {
+		return ("panic-after-reopen", Some(format!("the reopened chain panicked in {}", jv["panic"])));
+	}
+	if !allowed.contains(&head) {
+		return ("head-not-allowed", Some(format!("head after restart is {} (allowed: old head, new head or an ancestor)", head)));
+	}
+	if jv["validate"].as_str() != Some("Ok") {
+		return (
+			"validate-failed",
+			Some(format!("validate(false) after restart = {} (head {}); utxo mismatches {}; redelivery {}", jv["validate"], head, jv["utxo_mismatches"].as_array().map(|a| a.len()).unwrap_or(0), jv["redeliver"])),
+		);
+	}
+	if jv["utxo_mismatches"].as_array().map(|a| !a.is_empty()).unwrap_or(false) {
+		return ("utxo-differs", Some(format!("unspent set after restart differs from the replay of the chain to head {}: {}", head, jv["utxo_mismatches"][0])));
+	}
+	if jv["fp"].as_str() != Some(twin_fp) {
+		let a = jv["fp_lines"].as_object().cloned().unwrap_or_default();
+		let b = twin["fp_lines"].as_object().cloned().unwrap_or_default();
+		let cut = |v: &Value| -> String {
+			let t = v.to_string();
+			t[..t.len().min(60)].to_string()
+		};
+		let diff: Vec<String> = a.iter().filter(|(k, v)| b.get(*k) != Some(v)).map(|(k, v)| format!("{}: {} != {}", k, cut(v), cut(&b.get(k).cloned().unwrap_or(Value::Null)))).take(3).collect();
+		return ("redelivery-differs", Some(format!("after restart (head {}) and re-delivery of {:?} the state differs from an uninterrupted node: {:?}; redelivery results {}", head, op, diff, jv["redeliver"])));
+	}
+	if jv["validate_after"].as_str() != Some("Ok") {
+		return ("validate-after-redelivery-failed", Some(format!("validate(false) after re-delivery = {}", jv["validate_after"])));
+	}
+	("ok", None)
+}
+
 fn run(tier: Tier, shard: usize, n: usize) -> Report {
 	uni::init_thread();
 	let mut rep = Report::new();
@@ -330,7 +381,7 @@ fn run(tier: Tier, shard: usize, n: usize) -> Report {
 		let (tree, tree_file) = built.get(s.universe).unwrap();
 		// base directory: state just before the interrupted operation
 		let base = sc.fresh("base");
-		if !(s.op.first() == Some(&"init")) {
+		if !(s.op.first() == Some(&"init") && s.prelude.is_empty()) {
 			let mut live = Live::open(tree, &base, Options::NONE);
 			for e in parse_events(tree, &s.prelude) {
 				let o = live.apply(&e);
@@ -340,7 +391,7 @@ fn run(tier: Tier, shard: usize, n: usize) -> Report {
 			std::fs::create_dir_all(&base).unwrap();
 		}
 		// heads allowed after a crash: ancestors-or-self of the old head and of the new head
-		let old_head: Option<Option<usize>> = if s.op.first() == Some(&"init") {
+		let old_head: Option<Option<usize>> = if s.op.first() == Some(&"init") && s.prelude.is_empty() {
 			Some(None)
 		} else {
 			let live = Live::open(tree, &base, Options::NONE);
@@ -403,56 +454,65 @@ fn run(tier: Tier, shard: usize, n: usize) -> Report {
 				eprintln!("MACHINERY: victim of {}#{} ({}) did not die by SIGABRT: code {:?} sig {:?}", s.name, nn, label, code, sig);
 				std::process::exit(2);
 			}
+			// (thorough) keep the directory as the kill left it: the second-crash exploration starts from it
+			let d0 = if tier == Tier::Thorough && s.op.first() != Some(&"init") {
+				let d0 = sc.fresh("victim0");
+				uni::copy_dir(&d, &d0);
+				Some(d0)
+			} else {
+				None
+			};
 			let (jo, jcode, jsig) = spawn_child("judge", tree_file, &d, &s.op, 0);
 			rep.evaluations += 1;
 			rep.distinct += 1;
 			let case = json!({"scenario": s.name, "crash_at": nn, "label": label, "op": s.op});
-			let key = |class: &str| format!("{}|{}|{}", s.name, label, class);
-			let jv = match line_json(&jo, "JUDGE ") {
-				Some(v) => v,
-				None => {
-					// the judge itself died: the reopened chain aborts or hangs the process
-					rep.violation(key("reopen-kills-process"), format!("reopening after a kill at #{} {} killed the judging process (code {:?} signal {:?})", nn, label, jcode, jsig), case);
-					rep.outcome(&format!("{}|{}|reopen-kills-process", s.name, phase(label)));
-					let _ = std::fs::remove_dir_all(&d);
-					continue;
-				}
-			};
-			let init = jv["init"].as_str().unwrap_or("");
-			if init != "Ok" {
-				rep.violation(key("init-failed"), format!("killed at #{} {}: Chain::init = {}", nn, label, init), case);
-				rep.outcome(&format!("{}|{}|init-failed", s.name, phase(label)));
-				let _ = std::fs::remove_dir_all(&d);
-				continue;
-			}
-			let head = jv["head"].as_str().unwrap_or("").to_string();
-			let mut class = "ok";
-			// one violation per case: the most severe failed clause (init > head > validate > utxo > redelivery)
-			if jv.get("panic").is_some() {
-				rep.violation(key("panic-after-reopen"), format!("killed at #{} {}: the reopened chain panicked in {}", nn, label, jv["panic"]), case.clone());
-				class = "panic-after-reopen";
-			} else if !allowed.contains(&head) {
-				rep.violation(key("head-not-allowed"), format!("killed at #{} {}: head after restart is {} (allowed: old head, new head or an ancestor)", nn, label, head), case.clone());
-				class = "head-not-allowed";
-			} else if jv["validate"].as_str() != Some("Ok") {
-				rep.violation(key("validate-failed"), format!("killed at #{} {}: validate(false) after restart = {} (head {}); utxo mismatches {}; redelivery {}", nn, label, jv["validate"], head, jv["utxo_mismatches"].as_array().map(|a| a.len()).unwrap_or(0), jv["redeliver"]), case.clone());
-				class = "validate-failed";
-			} else if jv["utxo_mismatches"].as_array().map(|a| !a.is_empty()).unwrap_or(false) {
-				rep.violation(key("utxo-differs"), format!("killed at #{} {}: unspent set after restart differs from the replay of the chain to head {}: {}", nn, label, head, jv["utxo_mismatches"][0]), case.clone());
-				class = "utxo-differs";
-			} else if jv["fp"].as_str() != Some(&twin_fp) {
-				let diff: Vec<String> = {
-					let a = jv["fp_lines"].as_object().cloned().unwrap_or_default();
-					let b = twin["fp_lines"].as_object().cloned().unwrap_or_default();
-					a.iter().filter(|(k, v)| b.get(*k) != Some(v)).map(|(k, v)| format!("{}: {} != {}", k, &v.to_string()[..v.to_string().len().min(60)], &b.get(k).cloned().unwrap_or(Value::Null).to_string()[..b.get(k).cloned().unwrap_or(Value::Null).to_string().len().min(60)])).take(3).collect()
-				};
-				rep.violation(key("redelivery-differs"), format!("killed at #{} {}: after restart (head {}) and re-delivery of {:?} the state differs from an uninterrupted node: {:?}; redelivery results {}", nn, label, head, s.op, diff, jv["redeliver"]), case.clone());
-				class = "redelivery-differs";
-			} else if jv["validate_after"].as_str() != Some("Ok") {
-				rep.violation(key("validate-after-redelivery-failed"), format!("killed at #{} {}: validate(false) after re-delivery = {}", nn, label, jv["validate_after"]), case.clone());
-				class = "validate-after-failed";
+			let (class, msg) = classify(line_json(&jo, "JUDGE ").as_ref(), &twin, &twin_fp, &allowed, &s.op, (jcode, jsig));
+			if let Some(m) = msg {
+				rep.violation(format!("{}|{}|{}", s.name, label, class), format!("killed at #{} {}: {}", nn, label, m), case);
 			}
 			rep.outcome(&format!("{}|{}|{}", s.name, phase(label), class));
+			// second crash: the restart after the kill is itself killed at every crash point it executes
+			if let Some(d0) = d0 {
+				if class == "ok" {
+					let c1 = sc.fresh("count2");
+					uni::copy_dir(&d0, &c1);
+					let init_op = ["init"];
+					let (o2, code2, sig2) = spawn_child("run", tree_file, &c1, &init_op, 0);
+					let l2: Vec<String> = match line_json(&o2, "LABELS ") {
+						Some(v) => v["labels"].as_array().unwrap().iter().map(|x| x.as_str().unwrap().to_string()).collect(),
+						None => {
+							eprintln!("MACHINERY: restart count run after {}#{} failed code {:?} sig {:?}", s.name, nn, code2, sig2);
+							std::process::exit(2);
+						}
+					};
+					let _ = std::fs::remove_dir_all(&c1);
+					let mut occ2: std::collections::HashMap<String, usize> = Default::default();
+					for (k2, l) in l2.iter().enumerate() {
+						let c = occ2.entry(l.clone()).or_insert(0);
+						*c += 1;
+						let label2 = format!("{}#{}", l, c);
+						let d2 = sc.fresh("victim2");
+						uni::copy_dir(&d0, &d2);
+						let (_, code3, sig3) = spawn_child("run", tree_file, &d2, &init_op, (k2 + 1) as u64);
+						if sig3 != Some(libc::SIGABRT) {
+							eprintln!("MACHINERY: second victim of {}#{}>>{} did not die by SIGABRT: code {:?} sig {:?}", s.name, nn, label2, code3, sig3);
+							std::process::exit(2);
+						}
+						let (jo2, jc2, js2) = spawn_child("judge", tree_file, &d2, &s.op, 0);
+						rep.evaluations += 1;
+						rep.distinct += 1;
+						let case2 = json!({"scenario": s.name, "crash_at": nn, "label": label, "op": s.op, "second_crash_at": k2 + 1, "second_label": label2});
+						let (class2, msg2) = classify(line_json(&jo2, "JUDGE ").as_ref(), &twin, &twin_fp, &allowed, &s.op, (jc2, js2));
+						if let Some(m) = msg2 {
+							rep.violation(format!("{}|{}>>{}|{}", s.name, label, label2, class2), format!("killed at #{} {}, restarted and killed again at #{} {}: {}", nn, label, k2 + 1, label2, m), case2);
+						}
+						rep.outcome(&format!("{}|{}>>restart:{}|{}", s.name, phase(label), phase(&label2), class2));
+						let _ = std::fs::remove_dir_all(&d2);
+					}
+					*rep.extra.entry("second_crash_points".to_string()).or_insert(json!(0)) = json!(rep.extra.get("second_crash_points").and_then(|v| v.as_u64()).unwrap_or(0) + l2.len() as u64);
+				}
+				let _ = std::fs::remove_dir_all(&d0);
+			}
 			let _ = std::fs::remove_dir_all(&d);
 		}
 		let _ = std::fs::remove_dir_all(&base);
@@ -505,7 +565,7 @@ impl Engine for C09 {
 		let tf = sc.fresh("tree").with_extension("json");
 		tree.save(&tf);
 		let base = sc.fresh("base");
-		if s.op.first() != Some(&"init") {
+		if !(s.op.first() == Some(&"init") && s.prelude.is_empty()) {
 			let mut live = Live::open(&tree, &base, Options::NONE);
 			for e in parse_events(&tree, &s.prelude) {
 				live.apply(&e);
